@@ -502,6 +502,7 @@ impl Impl {
                     Ok(sp) => {
                         let active = opt_stream(sp.active_stream());
                         let sh = Shared::new(&inp[la..], end, parse_rd(kv(rest, "rd")?), parse_wr(kv(rest, "wr")?), parse_fl(kv(rest, "fl")?));
+                        sh.lock().unwrap().abort_kind = kv(rest, "ek") == Some("a");
                         let req = Box::new(AReq::new(sp, MockR(sh.clone()), MockW(sh.clone())));
                         self.a = AState { req: Some(req), shared: Some(sh), ..Default::default() };
                         format!("ok active={active}{}", self.a_suffix())
